@@ -85,7 +85,12 @@ def _build(case):
         for ace in aces:
             for addr in (ace.srcaddr, ace.dstaddr):
                 if addr.addrgroup:
-                    addr.items = [spell(rng, rand_cube(rng, 1), ace.platform, "Address") for _ in range(rng.randint(1, 3))]
+                    texts = [spell(rng, rand_cube(rng, 1), ace.platform, "Address") for _ in range(rng.randint(1, 3))]
+                    if rng.random() < 0.5:  # members given as objects with their own notes
+                        addr.items = [type(addr)(t, platform=ace.platform, version=str(ace.version), note={"member": n})
+                                      for n, t in enumerate(texts)]
+                    else:
+                        addr.items = texts
     return obj
 
 
@@ -449,7 +454,7 @@ def gen_case(rng):
         return gen_config_case(rng)
     while True:
         base = C06.gen_case(rng)
-        if base["cls"] in ("acls", "addrgroups"):
+        if base["cls"] in ("acls", "addrgroups", "aces"):
             continue
         break
     cls = base["cls"]
